@@ -85,6 +85,23 @@ func genC12Lines(t *rapid.T) c12Lines {
 	if len(c.Lines) > 0 && rapid.IntRange(0, 2).Draw(t, "repeat") == 0 {
 		c.Lines = append(c.Lines, "+dup=1", "other", "+dup=2", "@dup", " +dup 3 ")
 	}
+	// long comments: many tag lines over few keys, in no particular order (values of a repeated key keep their order)
+	if rapid.IntRange(0, 4).Draw(t, "manytags") == 0 {
+		m := rapid.IntRange(9, 40).Draw(t, "nmany")
+		for i := 0; i < m; i++ {
+			key := rapid.SampledFrom([]string{"zeta", "alpha", "mid", "gengo:x", "k", "zz:sub", "b"}).Draw(t, "manykey")
+			switch rapid.IntRange(0, 3).Draw(t, "manyform") {
+			case 0:
+				c.Lines = append(c.Lines, fmt.Sprintf("+%s=%d", key, i))
+			case 1:
+				c.Lines = append(c.Lines, fmt.Sprintf("@%s v%d", key, i))
+			case 2:
+				c.Lines = append(c.Lines, fmt.Sprintf("text line %d", i))
+			default:
+				c.Lines = append(c.Lines, "+"+key)
+			}
+		}
+	}
 	c.Markers = rapid.SampledFrom([]string{"", "", "+", "@", "#", "+@#", "-+"}).Draw(t, "markers")
 	return c
 }
@@ -157,6 +174,8 @@ type c12Layout struct {
 	// ImportTight: on the line directly above it
 	ImportCmt   string `json:"importcmt,omitempty"`
 	ImportTight bool   `json:"importtight,omitempty"`
+	// BrokenDep: the (well-formed) package imports a package of the module that has a type error
+	BrokenDep bool `json:"brokendep,omitempty"`
 }
 
 var c12Words = []string{"Does things.", "x = y", "see Other", "a // b", "note: careful", "TODO(me): later", "中文 doc", "tail", "host:port or :port", "key:value pairs follow", "0:off 1:on", "unit:ms", "http://example.com/x", "a:b"}
@@ -247,6 +266,9 @@ func genC12Layout(t *rapid.T) c12Layout {
 		l.ImportCmt = rapid.SampledFrom([]string{"for side effects", "+gengo:runtimedoc", "Does things.", "@name value"}).Draw(t, "importcmttext")
 		l.ImportTight = rapid.Bool().Draw(t, "importtight")
 	}
+	if rapid.IntRange(0, 7).Draw(t, "brokendep") == 0 {
+		l.BrokenDep = true
+	}
 	return l
 }
 
@@ -279,6 +301,9 @@ func (it c12Item) tail() string {
 func (l c12Layout) source() string {
 	b := &strings.Builder{}
 	b.WriteString("package p\n\n")
+	if l.BrokenDep {
+		b.WriteString("import _ \"m/broken\"\n\n")
+	}
 	if l.ImportCmt != "" {
 		fmt.Fprintf(b, "import _ \"unsafe\" // %s\n", l.ImportCmt)
 		if !l.ImportTight {
@@ -412,6 +437,9 @@ func oracleC12Layout(l c12Layout) error {
 	dir := tempDir()
 	defer os.RemoveAll(dir)
 	m := modspec.Mod{Path: "m", Go: "1.21", Pkgs: []modspec.Pkg{{Dir: "p", Name: "p", Other: []modspec.File{{Name: "p.go", Data: l.source()}}}}}
+	if l.BrokenDep {
+		m.Pkgs = append(m.Pkgs, modspec.Pkg{Dir: "broken", Name: "broken", Other: []modspec.File{{Name: "b.go", Data: "package broken\n\n// Count refers to a symbol that does not exist (yet)\nvar Count int = notGeneratedYet\n"}}})
+	}
 	writeMod(&m, dir)
 	u, err := load(dir, "./p")
 	if err != nil {
